@@ -1,6 +1,7 @@
 """C14 Every request completes exactly once (W-FULL)."""
 from dsim import seams
 from props.common import gen_stalls, gen_strategy, quiet_logging, Violations
+from dsim.core import Deadlock
 from worlds.reqpath import ReqPathRun, base_plan, RETRY, RETHROW, IGNORE, RETRY_NEXT_HOST
 
 ID = 'C14'
@@ -21,7 +22,8 @@ RULES = {
 WORLD_INFO = {'real': ['Cluster, Session, ResponseFuture (all of it), ResultSet, pools, Connection, LibevConnection, policies base classes'],
               'stub': ['libev C binding', 'sockets/TCP', 'ThreadPoolExecutor', 'fake Cassandra nodes', 'scripted LBP/retry policy (harness subclasses)']}
 ASSUMPTIONS = ['page fetches are exercised in C18/C15; here each statement is one epoch']
-REQUIRED_PROBES = ['second_response_after_final', 'client_timeout', 'retry_performed', 'late_callback_added', 'connection_failure']
+REQUIRED_PROBES = ['second_response_after_final', 'client_timeout', 'retry_performed', 'late_callback_added', 'connection_failure',
+                   'requests_with_no_connection_left']
 
 ERRS = ['read_timeout', 'write_timeout', 'unavailable', 'overloaded', 'bootstrapping', 'truncate', 'server_error', 'invalid']
 
@@ -73,13 +75,26 @@ def gen_plan(rng, tier):
              time_jump_p=rng.choice([0, 0, 0.05]))
     p.update(gen_stalls(rng, ['_set_result', '_set_final_result', '_set_final_exception', '_on_timeout', '_on_speculative_execute',
                               'add_callback', 'add_errback', '_retry_task', 'send_request'], 0.25))
+    if rng.random() < 0.06:
+        # every node is gone (and reconnection is far away) before the first request: no connection is left, the reactor has
+        # nothing to watch; the requests have short timeouts and the thread sending them is descheduled inside send_request/_query
+        # for longer than that, so the timeout is noticed before any connection was borrowed
+        p['faults'] = [{'at': 0.02, 'kind': 'crash', 'node': i, 'how': 'rst'} for i in range(n)]
+        p['exec']['reconnect_delay'] = 500.0
+        p['late_adders'] = []
+        for r in p['requests']:
+            r['start_at'] = round(0.1 + rng.choice([0.0, 0.05, 0.3]), 3)
+            r['timeout'] = rng.choice([0.03, 0.05, 0.1])
+        p['focus_stall'] = [rng.choice(['send_request', '_query']), 1.0, rng.choice([0.2, 0.5]), rng.randrange(1, 14), rng.choice([1, 2, 4])]
+        p.pop('stall', None)
+        p['all_gone'] = True
     return p
 
 
 def line_funcs(w):
     RF = w.ccl.ResponseFuture
     return [RF._set_result, RF._set_final_result, RF._set_final_exception, RF._on_timeout, RF._on_speculative_execute,
-            RF.add_callback, RF.add_errback, RF._cancel_timer, RF._retry_task, RF.send_request]
+            RF.add_callback, RF.add_errback, RF._cancel_timer, RF._retry_task, RF.send_request, RF._query]
 
 
 def classify(run, rid, calls):
@@ -94,8 +109,14 @@ def classify(run, rid, calls):
 def run_plan(plan, seed, choices=None):
     run = ReqPathRun(plan, seed, choices, line_funcs=line_funcs)
     w, sim = run.w, run.w.sim
-    status = run.run(settle=3.0)
+    try:
+        status = run.run(settle=3.0)
+    except Deadlock as e:
+        # every thread is blocked for good and no timer or event is left: the requests still waited for can never complete
+        status = 'deadlock: %s' % e
     V = Violations()
+    if plan.get('all_gone'):
+        sim.probe('requests_with_no_connection_left')
     nontrivial = False
     all_obs = [(i, o, False) for i, o in sorted(run.obs.items())] + [(i, o, True) for i, o in run.extra_obs]
     for i, o, late in all_obs:
